@@ -73,7 +73,7 @@ CLAIMED = {
              "shape, helpers, lists, strings over all printable ASCII, control flow, nested first assignments).",
         note="Trusted: Lean kernel (propext, Classical.choice, Quot.sound); host g++ gnu++17 + mock Arduino core in place of avr-g++ and the real core/libraries; the C++ type "
              "system beyond scoping is decided by the compiler run only (partial). Known findings K06a–K06e, K06g (loop variable after loop, `except Name`, helper called with int "
-             "and float, helper returning lists of different types, `for e in xs`, literal + literal).",
+             "and float, helper returning lists of different types, `for e in xs`, helper call inside an argument); `literal + literal` was repaired (F23).",
         technique="Lean 4 theorems (escape/lexer round-trip by induction, scoping well-formedness of the translation, brace balance) + model/parser and model/compiler correspondence + compiler oracle", ref="4/C06"),
     "C07": dict(
         text="Lean character/line-level model of the parser's layout handling (indentOf, the quote-aware comment stripper, collectBlock, the if/elif/else and try/except "
